@@ -178,6 +178,13 @@ func (m *refMsg) summary() map[string]any {
 		"additionals": len(m.Sec[2]), "first_qnames": qs, "first_rrs(section:type:name)": types}
 }
 
+func hexHead(b []byte) string {
+	if len(b) > 300 {
+		return fmt.Sprintf("%x…(%d bytes)", b[:300], len(b))
+	}
+	return fmt.Sprintf("%x", b)
+}
+
 func firstDiff(a, b string) string {
 	la, lb := strings.Split(a, "\n"), strings.Split(b, "\n")
 	for i := 0; i < len(la) || i < len(lb); i++ {
@@ -882,9 +889,10 @@ var genLabelPool = []string{"a", "b", "c", "www", "mail", "ns1", "example", "com
 
 type dnsGen struct {
 	rng   *rand.Rand
+	small bool
 	names []string // names already used in this message (suffix reuse)
 	// reach counters
-	maxNames, label63, rootNames, rawLabels, txt255, txtEmpty int
+	maxNames, label63, rootNames, rawLabels, txt255, txtEmpty, bigRData int
 }
 
 func (g *dnsGen) label() string {
@@ -1005,6 +1013,9 @@ func (g *dnsGen) bytes(n int) []byte {
 }
 
 func (g *dnsGen) blobLen() int {
+	if g.small {
+		return g.rng.IntN(12)
+	}
 	switch g.rng.IntN(12) {
 	case 0:
 		return 0
@@ -1097,19 +1108,27 @@ func (g *dnsGen) rr(typ uint16) refRR {
 
 // genMsg: shape 0 = ordinary, 1 = a filler record pushes later names across the 14-bit
 // pointer limit (offset 0x3FFF), 2 = many small records.
-func genMsg(rng *rand.Rand) (*refMsg, *dnsGen, int) {
-	g := &dnsGen{rng: rng}
+func genMsg(rng *rand.Rand) (*refMsg, *dnsGen, int) { return genMsgSized(rng, false) }
+
+// genMsgSized(small=true): ordinary shape only, at most 3 records per section and no
+// maximal-length blobs — base material for the C37 mutators.
+func genMsgSized(rng *rand.Rand, small bool) (*refMsg, *dnsGen, int) {
+	g := &dnsGen{rng: rng, small: small}
 	m := &refMsg{}
 	m.H = refHeader{ID: uint16(rng.Uint32()), QR: rng.IntN(2) == 0, AA: rng.IntN(2) == 0, TC: rng.IntN(2) == 0, RD: rng.IntN(2) == 0,
 		RA: rng.IntN(2) == 0, AD: rng.IntN(2) == 0, CD: rng.IntN(2) == 0, OpCode: uint8(rng.IntN(16)), RCode: uint8(rng.IntN(16))}
 	shape := 0
 	switch r := rng.IntN(100); {
+	case small:
 	case r < 3:
 		shape = 1
 	case r < 6:
 		shape = 2
 	}
 	cnt := func() int {
+		if small {
+			return rng.IntN(4)
+		}
 		switch rng.IntN(6) {
 		case 0:
 			return 0
@@ -1157,6 +1176,29 @@ func genMsg(rng *rand.Rand) (*refMsg, *dnsGen, int) {
 			}
 			m.Sec[s] = append(m.Sec[s], g.rr(typ))
 		}
+	}
+	if shape == 1 && rng.IntN(3) == 0 {
+		// a record with RDATA up to the 65535-octet limit (RDLENGTH needs all 16 bits)
+		l := []int{65535, 65534, 32768, 32767, 16384, 16384 + rng.IntN(49152)}[rng.IntN(6)]
+		var big refRR
+		switch rng.IntN(3) {
+		case 0:
+			big = refRR{Name: g.name(), Type: 99, Class: 1, TTL: rng.Uint32(), Blobs: [][]byte{g.bytes(l)}}
+		case 1: // OPT: one option filling the RDATA
+			big = refRR{Name: ".", Type: tOPT, Class: 4096, Keys: []uint16{uint16(rng.Uint32())}, Blobs: [][]byte{g.bytes(l - 4)}}
+		default: // TXT: 255-byte strings, the last one shorter
+			big = refRR{Name: g.name(), Type: tTXT, Class: 1, TTL: rng.Uint32()}
+			for rest := l; rest > 0; {
+				n := 255
+				if rest < 256 {
+					n = rest - 1
+				}
+				big.Blobs = append(big.Blobs, g.bytes(n))
+				rest -= n + 1
+			}
+		}
+		g.bigRData++
+		m.Sec[2] = append(m.Sec[2], big)
 	}
 	return m, g, shape
 }
